@@ -419,7 +419,17 @@ class FTPProcessorSession(BaseProcessorSession):
 
             _logger.debug('symlink {} -> {}', symlink_path, link_target)
 
-            os.symlink(link_target, symlink_path)
+            try:
+                os.symlink(link_target, symlink_path)
+            except (OSError, ValueError) as error:
+                # Name or target came from the server: already existing,
+                # too long, a null character and so on.
+                _logger.warning(
+                    _('Could not create symbolic link {symlink_path}: '
+                      '{error}'),
+                    symlink_path=symlink_path, error=error
+                )
+                return
 
             _logger.info(
                 _('Created symbolic link {symlink_path} to target {symlink_target}.'),
